@@ -4,6 +4,7 @@ import (
 	"bytes"
 	"fmt"
 	"runtime/metrics"
+	"strconv"
 	"strings"
 
 	"github.com/opsidian/parsley/ast"
@@ -45,6 +46,13 @@ type Hooks struct {
 	// wherever the expression occurs (opt := Optional(x) used in two rules). A combinator that keeps state in its
 	// closure is then shared by all its users. Ignored when NameOf is set (names are per occurrence).
 	ShareExprs bool
+	// UserLeaves: rune leaves are a HAND-WRITTEN terminal parser that returns a node type of the user's own (UserLeaf: a
+	// pointer type implementing parsley.Node, parsley.LiteralNode and ast.ReaderPosSetter, with a non-comparable field)
+	// instead of terminal.Rune's *ast.TerminalNode: the library must treat a user's terminal like its own
+	UserLeaves bool
+	// UserValueLeaves (with UserLeaves): the user's node is a VALUE type that cannot be compared with == (it carries a
+	// slice) and whose end cannot be moved (no SetReaderPos): only for grammars without RightTrim
+	UserValueLeaves bool
 }
 
 type Built struct {
@@ -70,6 +78,15 @@ func (b *Built) build(e *Expr, h *Hooks) parsley.Parser {
 			p = b.leaves[int(e.C)]
 		} else {
 			p = terminal.Rune(rune(e.C))
+		}
+		if h.UserLeaves {
+			if b.leaves == nil {
+				b.leaves = map[int]parsley.Parser{}
+			}
+			if b.leaves[1000+int(e.C)] == nil || !h.ShareLeaves {
+				b.leaves[1000+int(e.C)] = UserRune(e.C, h.UserValueLeaves)
+			}
+			p = b.leaves[1000+int(e.C)]
 		}
 		if h.Leaf != nil {
 			p = h.Leaf(e, p)
@@ -240,6 +257,54 @@ func Filler(name string, n int, b byte) parsley.File {
 // BigOffsets are lengths of a preceding file that push the parsed file across the widths a packed key, a narrow
 // integer or a fixed table could assume for a global position (16, 20, 24, 31, 32, 40 bits), on either side.
 var BigOffsets = []int{65528, 65536, 70000, 1<<20 - 6, 1<<20 + 5, 1<<24 + 3, 1<<31 - 4, 1<<31 + 7, 1<<32 - 5, 1<<32 + 9, 1 << 40}
+
+// UserLeaf is a terminal node type of the user's own
+type UserLeaf struct {
+	Tok       string
+	Val       rune
+	P, RP     parsley.Pos
+	Notes     []string // (makes the struct non-comparable by value; the node itself is a pointer)
+	setterUse int
+}
+
+func (u *UserLeaf) Token() string          { return u.Tok }
+func (u *UserLeaf) Schema() interface{}    { return nil }
+func (u *UserLeaf) Pos() parsley.Pos       { return u.P }
+func (u *UserLeaf) ReaderPos() parsley.Pos { return u.RP }
+func (u *UserLeaf) Value() interface{}     { return u.Val }
+func (u *UserLeaf) SetReaderPos(f func(parsley.Pos) parsley.Pos) {
+	u.setterUse++
+	u.RP = f(u.RP)
+}
+func (u *UserLeaf) String() string { return fmt.Sprintf("%s{%d..%d}", u.Tok, u.P, u.RP) }
+
+// UserValueLeaf is a terminal node of the user's own that is a value type and not comparable
+type UserValueLeaf struct {
+	Tok   string
+	Val   rune
+	P, RP parsley.Pos
+	Notes []string
+}
+
+func (u UserValueLeaf) Token() string          { return u.Tok }
+func (u UserValueLeaf) Schema() interface{}    { return nil }
+func (u UserValueLeaf) Pos() parsley.Pos       { return u.P }
+func (u UserValueLeaf) ReaderPos() parsley.Pos { return u.RP }
+func (u UserValueLeaf) Value() interface{}     { return u.Val }
+
+// UserRune is a hand-written terminal parser with the behaviour of terminal.Rune
+func UserRune(c byte, valueNode bool) parser.Func {
+	notFound := parsley.NotFoundError(strconv.Quote(string(rune(c))))
+	return parser.Func(func(ctx *parsley.Context, lrc data.IntMap, pos parsley.Pos) (parsley.Node, data.IntSet, parsley.Error) {
+		if np, ok := ctx.Reader().(*text.Reader).ReadRune(pos, rune(c)); ok && valueNode {
+			return UserValueLeaf{Tok: string(rune(c)), Val: rune(c), P: pos, RP: np, Notes: []string{"user"}}, data.EmptyIntSet, nil
+		}
+		if np, ok := ctx.Reader().(*text.Reader).ReadRune(pos, rune(c)); ok {
+			return &UserLeaf{Tok: string(rune(c)), Val: rune(c), P: pos, RP: np, Notes: []string{"user"}}, data.EmptyIntSet, nil
+		}
+		return nil, data.EmptyIntSet, parsley.NewError(pos, notFound)
+	})
+}
 
 // NewFileFrom creates a text.File the way a loader with a scratch buffer does: the content is copied into a buffer,
 // the buffer is handed to text.NewFile and overwritten right afterwards. The file must have kept its own copy.
